@@ -2,6 +2,7 @@ package kv
 
 import (
 	"context"
+	"encoding/json"
 	"fmt"
 	"sort"
 	"time"
@@ -164,6 +165,9 @@ func (s *Sim) Do(op Op) *Step {
 	if op.Kind == KDropColl {
 		return s.doDrop(op)
 	}
+	if op.Kind == KGetSub {
+		return s.doGetSub(op)
+	}
 	dk := DocKey{op.Bucket, op.Coll, op.Key}
 	c := s.coll(op.Bucket, op.Handle, op.Coll)
 	b := s.Env.Buckets[op.Bucket].Handles[0]
@@ -229,8 +233,8 @@ func (s *Sim) Do(op Op) *Step {
 	if s.Opt.IsoEachStep {
 		s.isoSameKey(dk)
 	}
-	if s.Opt.DumpEachStep {
-		s.JudgeDump(op.Bucket, op.Coll, 0, "step")
+	if s.Opt.DumpEachStep && st.PostObs.present() {
+		s.JudgeDump(op.Bucket, op.Coll, st.PostObs.rowCas(), "step")
 	}
 	s.curOp = nil
 	return &s.Log[len(s.Log)-1]
@@ -675,3 +679,63 @@ func (s *Sim) reportDump(dk DocKey) Reporter {
 }
 
 var _ = context.Background
+
+// doGetSub probes GetSubDocRaw and compares it with the addressed property of the current body (C18).
+func (s *Sim) doGetSub(op Op) *Step {
+	s.curOp, s.curPre = &op, "-"
+	defer func() { s.curOp = nil }()
+	c := s.coll(op.Bucket, op.Handle, op.Coll)
+	dk := DocKey{op.Bucket, op.Coll, op.Key}
+	pre := ReadBack(c, op.Key)
+	st := Step{Op: op, PreObs: pre, Pre: *s.doc(dk)}
+	s.curPre = st.Pre.Class()
+	st.Res = Exec(nil, c, &st.Op)
+	s.Log = append(s.Log, st)
+	s.Ctx.Count("subdoc_reads", 1)
+	res := &st.Res
+	wantErr, wantVal := "", []byte(nil)
+	if !pre.hasBody() {
+		wantErr = "missing"
+	} else {
+		var doc any
+		if err := json.Unmarshal(pre.Raw, &doc); err != nil {
+			wantErr = "any"
+		} else if _, isObj := doc.(map[string]any); !isObj {
+			wantErr = "any"
+		} else {
+			cur := doc
+			for _, p := range parsePath(op.Path) {
+				m, ok := cur.(map[string]any)
+				if !ok {
+					wantErr = "pathmismatch"
+					break
+				}
+				nxt, ok := m[p]
+				if !ok || nxt == nil {
+					wantErr = "pathnotfound"
+					break
+				}
+				cur = nxt
+			}
+			if wantErr == "" {
+				wantVal, _ = json.Marshal(cur)
+			}
+		}
+	}
+	s.Ctx.Cell(fmt.Sprintf("GetSubDocRaw|%s|%s", op.Path, ifs(wantErr == "", "ok", wantErr)))
+	switch {
+	case res.Err == "panic":
+		s.report([]string{"C18"}, "panic", "GetSubDocRaw panicked: "+res.ErrMsg)
+	case wantErr == "" && res.Err != "":
+		s.report([]string{"C18"}, "getsub.refused", fmt.Sprintf("GetSubDocRaw(%q) failed with %s (%s) but the property exists: %s", op.Path, res.Err, res.ErrMsg, trunc(wantVal)))
+	case wantErr == "" && !jsonEqual(res.Val, wantVal):
+		s.report([]string{"C18"}, "getsub.value", fmt.Sprintf("GetSubDocRaw(%q) = %s, the document holds %s", op.Path, trunc(res.Val), trunc(wantVal)))
+	case wantErr == "" && res.CasOut != pre.RawCas:
+		s.report([]string{"C18"}, "getsub.cas", fmt.Sprintf("GetSubDocRaw returned CAS %d, the document has %d", res.CasOut, pre.RawCas))
+	case wantErr != "" && res.Err == "":
+		s.report([]string{"C18"}, "getsub.accepted", fmt.Sprintf("GetSubDocRaw(%q) returned %s but should fail (%s)", op.Path, trunc(res.Val), wantErr))
+	case wantErr != "" && wantErr != "any" && res.Err != wantErr:
+		s.report([]string{"C18"}, "getsub.errclass", fmt.Sprintf("GetSubDocRaw(%q) failed with %s, want %s", op.Path, res.Err, wantErr))
+	}
+	return &s.Log[len(s.Log)-1]
+}
